@@ -218,6 +218,28 @@ func (w *World) probeFaults(ev Event) bool {
 			if w.Stop() {
 				return true
 			}
+			// the other manifestations of the same failure (FaultPlan.Alt)
+			alts := 0
+			switch kind {
+			case DepLoadAccount, DepPauseLookup:
+				alts = 2
+			case DepIsPayable:
+				alts = 1
+			}
+			for alt := 1; alt <= alts; alt++ {
+				if ev.Tx != nil {
+					mm := w.MsgOfTx(ev.N, ev.Tx)
+					w.Run(mm, []int{kind, k, alt})
+				} else {
+					w.Deliver(ev.ID, []int{kind, k, alt})
+				}
+				points++
+				w.Stats.Probes["fault-point-other-manifestation:"+DepNames[kind]]++
+				w.Restore(snap)
+				if w.Stop() {
+					return true
+				}
+			}
 		}
 	}
 	w.Stats.Probes["fault-enumerated-calls"]++
@@ -285,6 +307,8 @@ func (w *World) probeDouble(ev Event) bool {
 		cp := *m
 		ex := nd.Execute(&cp, -1, 0)
 		s := CanonExec(ex)
+		// the caller owns what it got back and adds into it in place before the next execution
+		ConsumeOutput(ex.Out)
 		w.Restore(snap)
 		return s
 	}
@@ -301,7 +325,17 @@ func (w *World) probeDouble(ev Event) bool {
 	oldC, oldF := nd.Container, nd.factory
 	nd.Clock.DropHandlers()
 	var d string
+	direct := nd.Direct
 	if err := nd.build(); err == nil {
+		// (function objects that had been told a schedule of their own are told it again)
+		names := make([]string, 0, len(direct))
+		for n := range direct {
+			names = append(names, n)
+		}
+		sort.Strings(names)
+		for _, n := range names {
+			nd.RepriceDirect([]string{n}, direct[n])
+		}
 		d = run()
 		// unrelated calls on the reused objects between the two executions
 		_ = oldC
@@ -372,10 +406,35 @@ func lengthCorruptions(b []byte) [][]byte {
 		{0xff, 0xff, 0xff, 0xff, 0x0f},                               // 2^32-1
 		{0x80, 0x80, 0x80, 0x80, 0x10},                               // 2^32
 	}
+	varint := func(v uint64) []byte {
+		var o []byte
+		for v >= 0x80 {
+			o = append(o, byte(v)|0x80)
+			v >>= 7
+		}
+		return append(o, byte(v))
+	}
+	// a field this version does not know (number 15, length-delimited), inserted at a field boundary
+	// p bytes into the message being decoded, with a torn length at the edge where "offset + header +
+	// length" passes 2^63: the decoder skips unknown fields with its own arithmetic
+	unknown := func(at int, p int) {
+		if p < 1 || at > len(b) {
+			return
+		}
+		for _, l := range []uint64{1<<63 - 10 - uint64(p), 1<<63 - 11, 1<<63 - 11 - uint64(p), 1<<63 - 10, 1<<63 - 9 - uint64(p)} {
+			v := append([]byte{}, b[:at]...)
+			v = append(v, 0x7a)
+			v = append(v, varint(l)...)
+			v = append(v, b[at:]...)
+			out = append(out, v)
+		}
+	}
 	var walk func(base int, seg []byte, depth int)
 	walk = func(base int, seg []byte, depth int) {
 		i := 0
+		defer func() { unknown(base+i, i) }()
 		for i < len(seg) {
+			unknown(base+i, i)
 			tag := seg[i]
 			if tag&0x80 != 0 {
 				return
@@ -508,10 +567,20 @@ func (w *World) probeCorrupt(ev Event) bool {
 			muts = append(muts, f, append([]byte{}, e.v[:i]...), append(append([]byte{}, e.v...), byte(r.Intn(256)), byte(r.Intn(256))))
 			if lc := lengthCorruptions(e.v); len(lc) > 0 {
 				r.Shuffle(len(lc), func(i, j int) { lc[i], lc[j] = lc[j], lc[i] })
-				if len(lc) > 6 {
-					lc = lc[:6]
+				if len(lc) > 10 {
+					lc = lc[:10]
 				}
 				muts = append(muts, lc...)
+			}
+			// the embedded metadata as a message of its own (the metadata decoder sees it from offset 0)
+			if t, err := spec.DecodeToken(e.v); err == nil && t.Meta != nil {
+				if lc := lengthCorruptions(spec.EncodeMeta(t.Meta)); len(lc) > 0 {
+					r.Shuffle(len(lc), func(i, j int) { lc[i], lc[j] = lc[j], lc[i] })
+					if len(lc) > 6 {
+						lc = lc[:6]
+					}
+					muts = append(muts, lc...)
+				}
 			}
 		}
 		for _, mu := range muts {
